@@ -122,6 +122,8 @@ class FiniteEval:
             f = ast.unparse(n.func)
             if f in self.calls:
                 return self.calls[f](*[self.ev(a) for a in n.args])
+            if f == 'range':
+                return list(range(*[self.ev(a) for a in n.args]))
             if f in ('np.copy', 'int', 'np.array', 'abs', 'bool', 'len', 'max',
                      'min', 'str'):
                 args = [self.ev(a) for a in n.args]
@@ -147,6 +149,22 @@ class FiniteEval:
             self.assign(st.target, _BIN[type(st.op)](cur, self.ev(st.value)))
         elif isinstance(st, ast.If):
             self.run(st.body if self.ev(st.test) else st.orelse)
+        elif isinstance(st, ast.While):
+            n = 0
+            while self.ev(st.test):
+                n += 1
+                if n > 10000:
+                    raise self.err(st, 'loop does not terminate on this point')
+                self.run(st.body)
+        elif isinstance(st, ast.For):
+            it = st.iter
+            if isinstance(it, ast.Call) and ast.unparse(it.func) == 'range':
+                seq = range(*[self.ev(a) for a in it.args])
+            else:
+                seq = self.ev(it)
+            for v in seq:
+                self.assign(st.target, v)
+                self.run(st.body)
         elif isinstance(st, ast.Return):
             raise _Return(self.ev(st.value) if st.value else None)
         elif isinstance(st, (ast.Pass,)):
